@@ -5,12 +5,14 @@ pub mod c04;
 pub mod c04gen;
 pub mod c04probe;
 pub mod c05;
+pub mod c17;
 pub mod pq_common;
 
 pub fn run(id: &str, ctx: &mut Ctx) -> bool {
     match id {
         "C04" => c04::run(ctx),
         "C05" => c05::run(ctx),
+        "C17" => c17::run(ctx),
         _ => return false,
     }
     true
